@@ -183,3 +183,52 @@ extern "C" void h_type_listing(void) {
     VF_WITNESS();
   } VF_CATCH
 }
+
+// ---- C05, CLM part: one structural field of a CLM image overridden (CFIELD/CVAL) or the file truncated (CTRUNC); then every
+// per-member call for indices 0..count+1, each in its own try block
+#ifndef CFIELD
+#define CFIELD -1
+#endif
+#ifndef CVAL
+#define CVAL 0
+#endif
+#ifndef CTRUNC
+#define CTRUNC -1
+#endif
+extern "C" void h_clm_hostile(void) {
+  put_clm(1, "s.clm"); vfs_set(2, "x0", 0, 0);
+  uint8_t* f = vfs_data(1);
+  const uint32_t offs[] = { 0, 50, 56, 68, 72, 84, 88, 60, 32 };
+  if (CFIELD >= 0) vf_st32(f + offs[CFIELD], (uint32_t)(CVAL));
+  uint64_t len = CTRUNC >= 0 ? (uint64_t)CTRUNC : 97;
+  vfs_set(1, "s.clm", 1, len);
+  vfs_commit();
+  g_may_throw = true;
+  try {
+    Archive::ClmFile a("s.clm");
+    if (CFIELD < 0) vf_assert(len >= 92, "CLM whose header or index is cut off was opened");
+    size_t count = a.GetCount();
+    vf_assert(count <= (len - 60) / 16, "more members than the index holds");
+    for (size_t i = 0; i < 4; i++) {
+      bool inb = i < count;
+      try { std::string n = a.GetName(i); vf_assert(inb && n.size() <= 8, "out-of-range index accepted by GetName / over-long name"); } catch (const std::exception&) {}
+      try { a.GetSize(i); vf_assert(inb, "out-of-range index accepted by GetSize"); } catch (const std::exception&) {}
+      try {
+        auto st = a.OpenStream(i);
+        vf_assert(inb, "out-of-range index accepted by OpenStream");
+        uint32_t off = vf_ld32(f + 60 + 16 * (uint32_t)i + 8), dl = vf_ld32(f + 60 + 16 * (uint32_t)i + 12);
+        vf_assert((uint64_t)off + dl <= len, "member whose recorded extent is not inside the file was delivered");
+        vf_assert(st->Length() == dl, "stream length is the recorded data length");
+        uint8_t b[8]; memset(b, 0, 8); uint64_t want = dl < 8 ? dl : 8;
+        st->Read(b, want);
+        vf_assert(memcmp(b, f + off, want) == 0, "stream bytes are the file bytes at the recorded extent");
+      } catch (const std::exception&) {}
+      if (i < 2) { try { a.ExtractFile(i, "x0"); vf_assert(inb, "out-of-range index accepted by ExtractFile");
+        uint32_t off = vf_ld32(f + 60 + 16 * (uint32_t)i + 8), dl = vf_ld32(f + 60 + 16 * (uint32_t)i + 12);
+        vf_assert((uint64_t)off + dl <= len, "extraction of a member whose extent is not inside the file succeeded");
+      } catch (const std::exception&) {} }
+    }
+    vf_assert(a.GetCount() == count, "failed calls changed the member count");
+  } catch (const std::exception&) {}
+  VF_WITNESS();
+}
